@@ -174,4 +174,44 @@ theorem create_note_partial (m : MidiCh) (ni : Note) (hk : (m.notes.map (·.key)
     · have : decide (ni.ttl > 0) = false := by simp [hg]
       simp [hg, this]
 
+
+/-! ## the decision steps of noteUpdate / killSustainingNotes / markSostenutoNotes keep I3
+
+(these are the pure functions the executable model calls for the note-off of one voice, the release of pedals and the sostenuto mark) -/
+
+/-- the note-off of one voice keeps the user locations of its chip channel unique, with or without the pedal -/
+theorem offVoice_nodup_partial (sustain : Bool) (cc : ChipCh) (m k : Nat) (h : (locs cc).Nodup) :
+    (locs (offVoice sustain cc m k).1).Nodup := by
+  unfold offVoice
+  cases sustain with
+  | false =>
+    simp only [Bool.not_false, if_true]
+    repeat' split
+    all_goals first | exact (eraseUser_nodup_partial cc m k h).1 | exact h
+  | true =>
+    simp only [Bool.not_true, Bool.false_eq_true, if_false]
+    have h1 := findOrCreateUser_nodup_partial cc m k h
+    split
+    · exact modUser_nodup_partial _ m k _ (fun u => ⟨rfl, rfl⟩) h1
+    · exact h1
+
+/-- when the note-off reports the channel silent, it has no user left -/
+theorem offVoice_silent_empty_partial (sustain : Bool) (cc : ChipCh) (m k : Nat) (h : (offVoice sustain cc m k).2 = true) :
+    (offVoice sustain cc m k).1.users = [] := by
+  unfold offVoice at h ⊢
+  cases sustain with
+  | false =>
+    simp only [Bool.not_false, if_true] at h ⊢
+    simp only [Bool.and_eq_true] at h
+    exact List.isEmpty_iff.1 h.2
+  | true => simp at h
+
+/-- pressing sostenuto changes no location -/
+theorem markSost_locs_partial (m : Nat) (cc : ChipCh) : locs (markSost m cc) = locs cc := by
+  simp only [locs, markSost, List.map_map]
+  apply List.map_congr_left
+  intro u _
+  simp only [Function.comp]
+  split <;> rfl
+
 end Opn.C04
